@@ -169,7 +169,7 @@ def manageDeployment (p : StratParams) (now wall : Time) (cleanupFailed : Bool :
       current := c.created, available := c.available, ignored := c.stuck }
   let targets := cleanupTargets p.toCleanUp
   let st := if p.toCleanUp.isEmpty then st else
-    { st with conds := updateCond st.conds wall "PodsCleanupDone" (boolCond (!cleanupFailed)) "" "" false false }
+    { st with conds := updateCond st.conds wall "PodsCleanupDone" (boolCond (!cleanupFailed)) "" "" true false }
   .ok { createE := plan.1, deleteE := plan.2,
         unscheduledNodes := unscheduledNodes p.unscheduled,
         isFrozen := frozen, isPaused := paused, newStatus := some st,
